@@ -17,9 +17,11 @@ def run():
     policies = ["none", "size", "immediate"] + ([] if quick else ["interval"])
     for pol in policies:
         # L1: exhaustive check of the design for this policy
+        # thorough bounds fitted to measured state counts (16 M distinct states / 4.5 min for policy none with 3 writes; the other
+        # policies need one dimension less to finish: no explicit flusher, no duplicate acks)
         cfg = U.write_cfg("Upstream_c01_%s.cfg" % pol, policy=pol, maxw=2 if quick else 3, sizes=(1, 3) if pol == "size" else (1,),
-                          zero=(pol == "none" and not quick), dups=1, acks=2, flushers=("F1",) if pol == "none" or not quick else (),
-                          grants=(pol != "size" or not quick))
+                          zero=(pol == "none" and not quick), dups=1 if (quick or pol == "none") else 0, acks=2,
+                          flushers=("F1",) if pol == "none" else (), grants=(pol != "size"))
         ctx.l1("Upstream", cfg, timeout=1500)
         os.remove(os.path.join(SPEC, cfg))
         # scripts: random complete behaviours of a larger configuration (environment projection)
